@@ -1,6 +1,7 @@
 from vf import Query
 
 SRC = ["src/kernel/activity/MailboxImpl.cpp", "src/kernel/activity/CommImpl.cpp", "src/kernel/activity/ActivityImpl.cpp"]
+THOROUGH_MAX = 70  # all quick shapes + a fixed strided sample of the other thorough shapes (lib/vf.py)
 META = {
     "bounds": "mailbox queue (pending or done queue) of 1..3 comms (quick: <=2), fully symbolic search (types, tags, filters, wanted type: decided path by path; quick: one queued comm, thorough: two) and, for longer queues, position of the first comm of the wanted type fixed per query (comms before it have the other type, or the right type with an own filter that refuses the searcher; searcher with or without a filter object), type/tag/filter of "
               "the comms behind it symbolic, searcher's tag symbolic; with removal; remove() of the k-th comm; "
